@@ -75,7 +75,7 @@ def prop(case, rec):
     level_sets = {}
     opt = Optimizer(max_length=4)
     for L in range(0, 7):
-        if omen_ref.count_level(gm, L) > 20000:
+        if omen_ref.count_level(gm, L) > 20000 or omen_ref.search_space(gm, L, cap=200000) > 200000:
             continue
         mc = MarkovCracker(g.omen_grammar, L, opt)
         out_l = []
